@@ -90,6 +90,18 @@ pub fn install_panic_hook() {
     }));
 }
 
+/// Run `f` (a whole case, with monitored calls of its own inside); a panic that escapes it is
+/// returned with its location.  No termination or memory bookkeeping: the calls inside have theirs.
+pub fn catch_escaped(f: impl FnOnce()) -> Result<(), PanicInfo> {
+    let prev = CAPTURING.with(|c| c.replace(true));
+    let r = catch_unwind(AssertUnwindSafe(f));
+    CAPTURING.with(|c| c.set(prev));
+    match r {
+        Ok(()) => Ok(()),
+        Err(_) => Err(LAST_PANIC.with(|p| p.borrow_mut().take()).unwrap_or(PanicInfo { message: "<panic without hook info>".into(), file: "<unknown>".into(), line: 0 })),
+    }
+}
+
 /// Run `f`, converting a panic into `Err(PanicInfo)`.
 pub fn catch<T>(f: impl FnOnce() -> T) -> Result<T, PanicInfo> {
     let prev = CAPTURING.with(|c| c.replace(true));
